@@ -265,8 +265,21 @@ func (g *gen) randFailureSweep(w *world, short bool) {
 		}
 		l.enqueue(b, []otr3.ValidMessage{w.query(b)})
 		l.settle(30)
+		// C03: once the user has been told the conversation is private (and not that it ended), no
+		// text of theirs goes out in the clear - whatever the randomness source did to the key exchange
+		sendA := func() []otr3.ValidMessage {
+			text := g.cleanText()
+			ts, _ := w.send(a, text)
+			olog.ok("C03")
+			for _, m := range ts {
+				if a.toldSecure && bytes.Contains(m, text) {
+					olog.viol("C03", "cleartext-after-gone-secure", fmt.Sprintf("OTRv%d: read %d (short=%v) of Conversation.Rand failed; the user was told the conversation is private, yet Send puts the text on the wire in the clear", version, k, short))
+				}
+			}
+			return ts
+		}
 		steps := []func(){
-			func() { ts, _ := w.send(a, g.cleanText()); l.enqueue(a, ts) },
+			func() { l.enqueue(a, sendA()) },
 			func() { ts, _ := w.send(b, g.cleanText()); l.enqueue(b, ts) },
 			func() { l.settle(10) },
 			func() { ts, _ := w.smpStart(a, "", []byte("s")); l.enqueue(a, ts); l.settle(10) },
@@ -276,7 +289,7 @@ func (g *gen) randFailureSweep(w *world, short bool) {
 			func() { ts, _ := w.end(a); l.enqueue(a, ts); l.settle(10) },
 		}
 		if endAtOnce {
-			steps = steps[len(steps)-1:]
+			steps = []func(){steps[0], steps[len(steps)-1]} // one Send, then End
 		}
 		replayed := false
 		for i, s := range steps {
